@@ -46,9 +46,18 @@ def overlap_consts(anchs, pres, big, cis=(False,), sigma=(1, 2)):
     }
 
 
+def build_model(ck, name, kinds, thorough):
+    """the imperative construction (BFS order, copy_matches, DEAD cut) refines ACAutomaton"""
+    mc(ck, "ACBuild", name,
+       {"Sigma": tla_set([97, 65, 98]), "MaxPats": 3 if thorough else 2, "MaxPatLen": 3,
+        "Kinds": tla_set(kinds), "CIs": tla_set([False, True])},
+       ["Refines", "FailSeenFirst", "QueueDepthSorted"])
+
+
 def c01(ck, thorough):
     """leftmost-first / leftmost-longest find and iteration"""
     kinds = ["lf", "ll"]
+    build_model(ck, "c01_build", kinds, thorough)
     mc(ck, "ACSearch", "c01_search", search_consts(kinds, [False], [False], [False], True),
        SEARCH_INV, ["PositionMonotone"])
     mc(ck, "ACIter", "c01_iter", iter_consts(kinds, [False], thorough), ITER_INV, ["Progress"])
@@ -75,6 +84,7 @@ def c02(ck, thorough):
 
 def c03(ck, thorough):
     """overlapping search"""
+    build_model(ck, "c03_build", ["std"], thorough)
     mc(ck, "ACOverlap", "c03_overlap", overlap_consts([False], [False, True], thorough),
        ["OverlapCorrect", "StateSane"], view="View")
     fams = ["f23", "rand:%d:10:6" % (400 if thorough else 60)] + (["f33"] if thorough else [])
@@ -90,6 +100,7 @@ def c04(ck, thorough):
         fams += ["f33", "ci3"]
     product(ck, "c04", fams, full=True, shards=4, mks=ALLK)
     calls(ck, "c04_kinds", "kinds", scale=6 if thorough else 1, mks=ALLK, an="both", flav="all")
+    calls(ck, "c04_fans", "fans", scale=2 if thorough else 1, mks=ALLK, an="no", flav="all")
 
 
 def stream_consts(big, faults):
@@ -225,6 +236,7 @@ def c16(ck, thorough):
     fams = ["f23", "ci", "shapes", "rand:%d:12:8" % (600 if thorough else 80)]
     product(ck, "c16", fams, full=True, shards=4, mks=ALLK)
     calls(ck, "c16_recipe", "recipe", scale=6 if thorough else 1, mks=ALLK, an="no", flav="find")
+    calls(ck, "c16_fans", "fans", scale=2 if thorough else 1, mks=ALLK, an="no", flav="all")
 
 
 def c10(ck, thorough):
